@@ -40,7 +40,7 @@ MIN_REACH = {
 }
 TIME_BUDGET = {"quick": 300, "thorough": 3000}
 
-KINDS = ["int", "float", "str", "tuple:2", "tuple:3", "array:3", "array:2x2", "list:2", "bool", "mixed"]
+KINDS = ["int", "float", "str", "tuple:2", "tuple:3", "array:3", "array:2x2", "list:2", "bool", "mixed", "emptymember"]
 SPLIT_KINDS = ["tuple:2", "tuple:3", "multi:s,a2,t", "mixed", "array:2", "array:3", "list:2", "array:2x2"]
 
 
@@ -115,6 +115,12 @@ def cases(ctx):
                 yield {"combos": combos, "spelling": "dict", "constants": {"c0": 1}, "kind": "tuple:2",
                        "split": bool(perm[0] % 2), "flat": bool(perm[-1] % 2),
                        "strategy": {"name": name, "perm": list(perm)}, "values_as": "list"}
+    # swept arguments whose NAMES are those of the library's own helper parameters, on every way of running
+    for name in ("seq", "fake_submit", "fake_apply", "threadpool", "parallel_int"):
+        for combos in ([["fn", [1, 2, 3]], ["executor", ["u", "v"]]], [["executor", [0.5, 1.5]], ["args", [4, 5]], ["kwds", ["k"]]]):
+            yield {"combos": combos, "spelling": "dict", "constants": {}, "kind": "float", "split": False, "flat": False,
+                   "strategy": {"name": name, "perm": list(range(6)), "workers": 2, "jitter_us": 0, "jitter_seed": 0, "perm_seed": 1, "seed": 3},
+                   "values_as": "list", "helper_names": True}
     # every shuffle seed 0..K on a set of shapes
     nshapes, nseeds = ctx.pick((4, 12), (20, 50))
     for s in range(nshapes):
